@@ -132,7 +132,8 @@ Proof. rl_req. Qed.
 (* the shape shared by arguments_definition, fields_definition, input_fields_definition, enum_values_definition:
    open, one item or an error, more items while the next token is a name or a string, close *)
 Lemma rl_sim_listed f (item : PM unit) q open_sk close_k close_sk :
-  close_k <> TkEof -> rl_sim rl_any item q -> rg_progress q -> rl_requires rg_is_name_or_string q ->
+  close_k <> TkEof -> rl_sim (rg_starts rg_is_name_or_string) item q -> rg_progress q ->
+  rl_requires rg_is_name_or_string q ->
   forall open_f,
   rl_sim (rg_starts open_f)
     (p_bump open_sk ;;
@@ -145,10 +146,10 @@ Proof.
   apply rl_sim_bind; [apply rl_sim_bump|intros _].
   eapply rl_sim_ext; [intros ts _; symmetry; apply rg_seq_assoc'|].
   apply rl_sim_peek_in_else_err_then with (f := rg_is_name_or_string);
-    [cbn; intuition discriminate|apply rg_is_name_or_string_in|apply rl_sim_any; exact Hitem|exact Hreq|].
+    [cbn; intuition discriminate|apply rg_is_name_or_string_in|exact Hitem|exact Hreq|].
   apply rl_sim_bind; [|intros _; apply rl_sim_expect; exact Hne].
   apply (rl_sim_many_sel rl_sel_name_or_string rg_is_name_or_string _ item q);
-    [reflexivity|apply rg_is_name_or_string_sel| | |apply rl_sim_any; exact Hitem|exact Hprog].
+    [reflexivity|apply rg_is_name_or_string_sel| | |exact Hitem|exact Hprog].
   - intros []; intros H; try discriminate H; reflexivity.
   - intros []; intros H; try discriminate H; reflexivity.
 Qed.
@@ -157,7 +158,7 @@ Lemma rl_sim_arguments_definition_body f :
   rl_sim (rg_starts (rg_is TkLParen)) (g_arguments_definition_body f) (rgl_argsdef LP).
 Proof.
   unfold g_arguments_definition_body, rgl_argsdef.
-  apply rl_sim_listed; [discriminate|apply rl_sim_input_value_definition|apply rgl_inputvaldef_progress|].
+  apply rl_sim_listed; [discriminate|apply rl_sim_any, rl_sim_input_value_definition|apply rgl_inputvaldef_progress|].
   unfold rgl_inputvaldef. apply rl_requires_desc_name.
 Qed.
 Lemma rl_sim_arguments_definition f :
@@ -168,7 +169,7 @@ Lemma rl_sim_input_fields_definition f :
   rl_sim (rg_starts (rg_is TkLCurly)) (g_input_fields_definition f) (rgl_inputfieldsdef LP).
 Proof.
   unfold g_input_fields_definition, rgl_inputfieldsdef. apply rl_sim_node.
-  apply rl_sim_listed; [discriminate|apply rl_sim_input_value_definition|apply rgl_inputvaldef_progress|].
+  apply rl_sim_listed; [discriminate|apply rl_sim_any, rl_sim_input_value_definition|apply rgl_inputvaldef_progress|].
   unfold rgl_inputvaldef. apply rl_requires_desc_name.
 Qed.
 
@@ -211,7 +212,7 @@ Lemma rl_sim_fields_definition f :
   rl_sim (rg_starts (rg_is TkLCurly)) (g_fields_definition f) (rgl_fieldsdef LP).
 Proof.
   unfold g_fields_definition, rgl_fieldsdef. apply rl_sim_node.
-  apply rl_sim_listed; [discriminate|apply rl_sim_field_definition|apply rgl_fielddef_progress|].
+  apply rl_sim_listed; [discriminate|apply rl_sim_any, rl_sim_field_definition|apply rgl_fielddef_progress|].
   unfold rgl_fielddef. apply rl_requires_desc_name.
 Qed.
 
@@ -236,4 +237,44 @@ Proof.
   unfold g_union_member_types, rg_unionmembers. apply rl_sim_node.
   apply rl_sim_bind; [apply rl_sim_bump|intros _].
   apply rl_sim_separated; [discriminate|apply rl_sim_named_type_or_err|apply rg_progress_nolonger, rg_progress_sat].
+Qed.
+
+(* ------------------------------------------------------------------ enum values *)
+(* enum_value_definition does nothing at all unless the next token is a name or a string; both of its callers
+   have checked that, so that is its precondition here *)
+Lemma rl_sim_enum_value_definition f :
+  rl_sim (rg_starts rg_is_name_or_string) (g_enum_value_definition f) (rgl_enumvaldef LP).
+Proof.
+  unfold g_enum_value_definition, rgl_enumvaldef.
+  assert (Hbody : rl_sim rl_any
+            (p_node SK_ENUM_VALUE_DEFINITION
+               (g_if_peek TkStringValue g_description ;; g_enum_value ;; g_if_peek TkAt (g_directives f GConst)))
+            (rg_seq rg_desc_opt (rg_seq (rg_sat rg_enum_name) (rgl_directives LP true)))).
+  { apply rl_sim_node. apply rl_sim_bind; [apply rl_sim_desc_opt|intros _].
+    apply rl_sim_bind; [apply rl_sim_enum_value|intros _]. apply (rl_sim_directives_opt f GConst). }
+  split.
+  { apply rl_gen_bind; [apply rl_gen_peek_in|]. intros [|]; cbn [p_when]; [apply Hbody|apply rl_gen_ret]. }
+  intros s u s' E [Hinv Ha] Ht Hst. destruct (rl_inv_cur _ Hinv) as (t & Hc & Hi & _).
+  unfold p_bind in E. rewrite (peek_in_some _ t s Hc) in E.
+  rewrite (rl_peek_in_view _ _ _ Hinv Hc) in E by (cbn; intuition discriminate).
+  assert (Hh : rl_head_is (rl_kind_in [TkName; TkStringValue]) (rl_sigs s) = true).
+  { destruct (rl_sigs s) as [|t0 ts]; [contradiction|]. cbn [rg_starts] in Hst. cbn [rl_head_is].
+    rewrite <- rg_is_name_or_string_in. exact Hst. }
+  rewrite Hh in E. cbn [p_when] in E. exact (proj2 Hbody s u s' E (conj Hinv Ha) Ht I).
+Qed.
+
+Lemma rgl_enumvaldef_progress : rg_progress (rgl_enumvaldef LP).
+Proof.
+  unfold rgl_enumvaldef. apply rg_progress_seq_r; [apply rg_desc_opt_nolonger|].
+  apply rg_progress_seq_l; [apply rg_progress_sat|apply rgl_directives_nolonger].
+Qed.
+Lemma rl_requires_enumvaldef : rl_requires rg_is_name_or_string (rgl_enumvaldef LP).
+Proof. unfold rgl_enumvaldef. rl_req. Qed.
+
+Lemma rl_sim_enum_values_definition f :
+  rl_sim (rg_starts (rg_is TkLCurly)) (g_enum_values_definition f) (rgl_enumvalsdef LP).
+Proof.
+  unfold g_enum_values_definition, rgl_enumvalsdef. apply rl_sim_node.
+  apply rl_sim_listed; [discriminate|apply rl_sim_enum_value_definition|apply rgl_enumvaldef_progress|
+                        apply rl_requires_enumvaldef].
 Qed.
